@@ -2,7 +2,7 @@
    well-formed records.  Property theorems only; proofs are in
    proofs/SortOrderFacts.v.  Model: model/SortOrder.v; documented order:
    spec/SpecOrder.v. *)
-From MafVerif Require Import lib.Base lib.SortOrderLib model.SortOrder spec.SpecOrder
+From MafVerif Require Import lib.Base lib.Str lib.SortOrderLib model.SortOrder spec.SpecOrder
   proofs.SortOrderFacts.
 
 (* The comparison the keys implement (__cmp__) is a total preorder on the keys
@@ -101,6 +101,22 @@ Theorem C08_typed_and_untyped_agree :
 Proof. exact typed_untyped_same_key. Qed.
 Print Assumptions C08_typed_and_untyped_agree.
 
+(* str(key) (the text form of a key): a coordinate key always prints its three
+   components tab-separated (a missing one as "None"); a barcode key prints
+   only when both barcodes are text, otherwise str() raises TypeError: the
+   library joins the raw barcodes.  The library itself never prints keys (the
+   out-of-order message prints the records). *)
+Theorem C08_key_text :
+  forall k,
+    match k with
+    | KCoord c => key_str k = Ok (ckey_str c)
+    | KBar t n c =>
+        (exists a b, t = PStr a /\ n = PStr b /\ key_str k = Ok (join [TAB] [a; b; ckey_str c])) \/
+        ((forall a, t <> PStr a) \/ (forall b, n <> PStr b)) /\ key_str k = Raise TypeError
+    end.
+Proof. exact key_str_cases. Qed.
+Print Assumptions C08_key_text.
+
 (* ---------- non-vacuity ---------- *)
 Definition t (s : list N) : str := s.
 Definition chr1 : str := [99;104;114;49]%N.
@@ -149,3 +165,14 @@ Proof.
   split; [intros _; eexists; reflexivity|]. split; [vm_compute; tauto|].
   right. right. exists 1. vm_compute. reflexivity.
 Qed.
+
+(* str() of keys: "chr2\t9\t9" with the barcode in front; a missing barcode makes str() raise *)
+Example demo_key_text :
+  match build_key kf_kary (mk (PStr T1) (PStr chr2) (PInt 9) PNone), build_key kf_kary (mk PNone (PStr chr2) (PInt 9) PNone),
+        build_key kf_name (Plain (PInt 0) PNone (PStr [55]%N)) with
+  | Ok a, Ok b, Ok c =>
+      key_str a = Raise TypeError /\ key_str b = Raise TypeError /\
+      key_str c = Ok [48; 9; 78;111;110;101; 9; 55]%N
+  | _, _, _ => False
+  end.
+Proof. vm_compute. repeat split; reflexivity. Qed.
